@@ -58,6 +58,55 @@ CLAIMED["C19"] = dict(
          "than the defaults excluded (MemoryError is host dependent); CPython's lenient a2b_base64 mirrored by the model.",
     design="§8 C19", technique="Lean 4 proof (codec inverses, total case analysis of verify) + differential correspondence")
 
+CLAIMED["C16"] = dict(
+    text="Lean theorems for EVERY pattern over the documented grammar (any number of segments, the ?/+/* parameter in any position) "
+         "and every '/'-leading newline-free path: the regex patternToRegex builds matches iff the documented segment rule does "
+         "(C16_regex_iff_spec[_string], C16_regex_iff_plain_rule), the captured values are the rule's bindings up to a stated "
+         "normalisation, one trailing slash is tolerated, getRoute returns the first registered matching route of the method and "
+         "dispatch answers 404 iff none matches. CPython's re is modelled for exactly the generated fragment (priority-ordered "
+         "backtracking semantics) and tied by (i) exact regex text equality with the real Router and (ii) match/groups equality "
+         "with re.match on the <=4 x <=5 segment product.",
+    note=TRUST + "the re model is validated only by the differential; paths start with '/' and contain no newline; the rate limiter is a "
+         "parameter assumed to admit; where the documentation is silent on empty segments the spec follows the repaired code "
+         "(proved invisible on paths without '//').",
+    design="§8 C16", technique="Lean 4 proof (regex semantics vs. segment spec, for all patterns and paths) + differential correspondence")
+
+CLAIMED["C15"] = dict(
+    text="Lean theorems for EVERY class table, class and well-typed instance over the annotated-shape grammar (basic types, enums, nested "
+         "objects, one generic level of List/Set/Dict/Tuple with int/str/enum keys): fromJson(toJson(x)) = x and loads(dumps(x)) = x "
+         "(through the model of json's key stringification, with parseInt(toDecimal n) = n for all n), toJson output is plain data "
+         "json.dumps accepts; WellTyped is an explicit decidable predicate with necessity witnesses. Model tied to serializable.py by "
+         "differential runs on classes generated on the fly with real typing generics.",
+    note=TRUST + "floats are opaque tokens (JSON float text round trip observed, not proved); ASCII model of upper()/int(str); enum raw "
+         "values are ints in the model; the class table is read from the live classes.",
+    design="§8 C15", technique="Lean 4 proof (typed codec round trip by structural induction) + differential correspondence")
+
+CLAIMED["C03"] = dict(
+    text="Lean theorems: with a key every packet but SERVER_HELLO is emitted as header ++ seal(key, nonce=header[0:12], aad=header[0:20], "
+         "payload) (C03_sealed_after_key), clear form only without a key or for SERVER_HELLO; the nonce determines (direction, second, "
+         "seq, ack); for EVERY operation history of one endpoint (sends, builds, receptions, time-outs, disconnects in any order, any "
+         "clock values) the emission log is a chain - next ring sequence number, at least send_interval later (emitLog_chain) - and "
+         "therefore no two emissions share (seq, whole second) when 65535*send_interval >= 1 s (C03_nonce_never_repeats), across "
+         "keep-alives, retransmissions and any number of wrap-arounds; client and server nonces differ in their first 4 bytes. "
+         "Model tied to connection.py by differential runs comparing every emission's header bytes, type, sealed flag and lengths, "
+         "including a soak that wraps the sequence number; every sealed datagram is opened with the real AES-GCM.",
+    note=TRUST + "hypotheses: no _build_packet call raised (C09_build_total, monitored), clock values >= 0; confidentiality of AES-GCM "
+         "assumed; 'an endpoint without a key only queues hellos' belongs to the handshake model (C02).",
+    design="§8 C03", technique="Lean 4 proof (frame lemmas + chain invariant by induction over operation histories) + differential correspondence")
+
+CLAIMED["C09"] = dict(
+    text="Lean theorems: every in-range header encodes to 20 bytes that decode to the same fields (wrong side refused, out-of-range "
+         "refused with struct.error); every packet of 0..255 in-range messages round-trips in CRC form and, for any AEAD that appends a "
+         "16-byte tag and opens what it sealed, in encrypted form, with length/count describing the payload exactly; for EVERY state and "
+         "queue content a built packet's payload is <= MAX_PAYLOAD_SIZE+2 with <= 255 messages, hence every datagram <= MTU-28 for every "
+         "MTU >= 66; one build removes from the queue exactly what it packs (multiset conservation), packs everything that fits "
+         "together, keeps the queue when idle, and Packet.create cannot raise. Model tied to connection.py by codec differentials on "
+         "the real PacketHeader/Packet (boundary fields, 0..256 messages, mutated datagrams) and packing differentials with bursts of "
+         "hundreds of tiny messages at MTU 512..1500.",
+    note=TRUST + "the decoded header's isServer flag denotes the receiving side (as in the code); AES-GCM facts are explicit hypotheses; "
+         "C09_build_total assumes message sequence numbers < 65536 and MTU <= 65535.",
+    design="§8 C09", technique="Lean 4 proof (codec inverses, packing invariant, permutation conservation) + differential correspondence")
+
 REASON_PENDING = "model and theorems for this property are not built yet in this revision (planned, see DESIGN.md §13); not claimed until its check exists"
 
 def main():
